@@ -1,5 +1,6 @@
 import OrsoVerif.Lemmas.Validate
 import OrsoVerif.Lemmas.Family
+import OrsoVerif.Lemmas.RowClass
 /-!
 # C05 — Validation accepts exactly conforming records; append is atomic
 
@@ -126,6 +127,12 @@ theorem error_carriers :
     ∧ (Gen.AppendFlow.errorBases.map (·.1)) = ["DataValidationError", "ExcessColumnsInDataError"]
     ∧ ("DataValidationError", "errors", "errors") ∈ Gen.AppendFlow.errorStores
     ∧ ("ExcessColumnsInDataError", "columns", "columns") ∈ Gen.AppendFlow.errorStores := by decide
+
+/-- The constructors of the two errors can be given ANY offending keys, names and values: while they build their message
+they apply nothing to them that needs more than being an object — no sorting or ordering (record keys of different kinds
+cannot be ordered), no arithmetic, no join of elements that were not made strings first.  So the error that is raised is
+the validation error, never a `TypeError` from its own constructor. -/
+theorem error_constructors_total : Gen.AppendFlow.errorPartialOps = [] := by decide
 
 /-! ## 2. validation: acceptance and error content -/
 
@@ -392,6 +399,26 @@ theorem session_frame_now (s : List Column) (pre : List Op) (init : List (List V
                             (appendResults (exec s pre) init rs)] := by
   simp [run_snoc, observe, (appends_invariant (exec s pre) init rs).1]
 
+/-- Non-vacuity: a record that breaks three rules at once, an accepted one, an excess key that hides two
+other offences, an alias that is an excess key; and a schema object whose verdict follows its mutations. -/
+example :
+    let s : List Column := [⟨"a", some "INTEGER", false, ["id"]⟩, ⟨"b", some "VARCHAR", true, []⟩, ⟨"c", none, false, []⟩]
+    validate s [("a", some "str"), ("c", none)] = .invalid ["b"] ["c"] ["a"]
+    ∧ validate s [("c", some "list"), ("b", none), ("a", some "bool")] = .ok
+    ∧ validate s [("a", some "str"), ("zz", none)] = .excess ["zz"]
+    ∧ validate s [("a", some "int"), ("b", none), ("c", some "int"), ("id", some "int")] = .excess ["id"]
+    ∧ run s [.validate [("a", some "int"), ("b", none), ("c", some "int"), ("d", some "float")],
+             .addCol ⟨"d", some "DOUBLE", true, []⟩,
+             .validate [("a", some "int"), ("b", none), ("c", some "int"), ("d", some "float")],
+             .popCol "b",
+             .validate [("a", some "int"), ("b", none), ("c", some "int"), ("d", some "float")],
+             .setCol 0 ⟨"a", some "VARCHAR", false, []⟩,
+             .frame [] [([("a", some "int"), ("c", some "int"), ("d", none)], true),
+                        ([("a", some "str"), ("c", some "int"), ("d", none)], true),
+                        ([("a", some "str"), ("c", some "int"), ("d", none)], false)]]
+        = [.outcome (.excess ["d"]), .outcome .ok, .outcome (.excess ["b"]),
+           .frame [[some "str", some "int", none]] [.rejected (.invalid [] [] ["a"]), .ok, .unsizable]] := by decide
+
 /-! ## 5. the type table -/
 
 /-- Facts about the generated type table: the subclass cases the property names. -/
@@ -586,26 +613,6 @@ theorem family_append_is_local (s : List Column) (st : Family.St) (h : Family.In
     have := family_frame_holds_its_own s st h [] [.append i k r z] (by simpa [Family.FOp.wf] using hk) j rows hj
     simpa [Family.runH, Family.appendsTo, hij, acceptedK] using this
 
-/-- Non-vacuity: a record that breaks three rules at once, an accepted one, an excess key that hides two
-other offences, an alias that is an excess key; and a schema object whose verdict follows its mutations. -/
-example :
-    let s : List Column := [⟨"a", some "INTEGER", false, ["id"]⟩, ⟨"b", some "VARCHAR", true, []⟩, ⟨"c", none, false, []⟩]
-    validate s [("a", some "str"), ("c", none)] = .invalid ["b"] ["c"] ["a"]
-    ∧ validate s [("c", some "list"), ("b", none), ("a", some "bool")] = .ok
-    ∧ validate s [("a", some "str"), ("zz", none)] = .excess ["zz"]
-    ∧ validate s [("a", some "int"), ("b", none), ("c", some "int"), ("id", some "int")] = .excess ["id"]
-    ∧ run s [.validate [("a", some "int"), ("b", none), ("c", some "int"), ("d", some "float")],
-             .addCol ⟨"d", some "DOUBLE", true, []⟩,
-             .validate [("a", some "int"), ("b", none), ("c", some "int"), ("d", some "float")],
-             .popCol "b",
-             .validate [("a", some "int"), ("b", none), ("c", some "int"), ("d", some "float")],
-             .setCol 0 ⟨"a", some "VARCHAR", false, []⟩,
-             .frame [] [([("a", some "int"), ("c", some "int"), ("d", none)], true),
-                        ([("a", some "str"), ("c", some "int"), ("d", none)], true),
-                        ([("a", some "str"), ("c", some "int"), ("d", none)], false)]]
-        = [.outcome (.excess ["d"]), .outcome .ok, .outcome (.excess ["b"]),
-           .frame [[some "str", some "int", none]] [.rejected (.invalid [] [] ["a"]), .ok, .unsizable]] := by decide
-
 /-- Non-vacuity of parts 6 and 7: `head(5)` of a two-row frame is the whole of it on a list of its own, so an
 append to the parent leaves it alone; frames taken later start from what their parent holds then; a UserDict is
 appended like the dict it stands for, a read-only mapping is refused by `validate` and by `append` alike. -/
@@ -626,5 +633,131 @@ example :
     ∧ (appendK s [] proxy good true) = ([], .rejected .other)
     ∧ (appendK s [] userDict good true) = ([[some "int", some "str"]], .ok)
     ∧ validateK proxy s good = .other := by decide
+
+/-! ## 8. one process, many features: where a frame's row class comes from -/
+
+/-- **The classes `Row.create_class` hands out do not depend on who asked before** (decided on the facts regenerated
+from row.py, dataframe.py and converters.py): the `DataFrame` constructor asks for a class with Row's own constructor —
+the one that reads a record by key —, and if `create_class` keeps the classes it makes in module-level state, the key
+is built from everything the class depends on: the field names, and `tuples_only` unless both values give the same
+constructor. -/
+theorem row_classes_sound : RowClass.genCfg.sound = true := by decide
+
+/-- Non-vacuity of part 8: on the working tree's configuration, an arrow-made frame stores the values in column order
+whatever was asked before. -/
+example :
+    let s : List Column := [⟨"a", some "INTEGER", false, []⟩, ⟨"b", some "VARCHAR", true, []⟩]
+    let good : Record := [("b", some "str"), ("a", some "int")]
+    (RowClass.runP RowClass.genCfg s ⟨[], []⟩
+        [.feature ["a", "b"] .reader, .feature ["b", "a"] (.direct true), .frame true [[some "int", none]],
+         .fop (.append 0 Kind.dict good true), .feature ["a", "b"] (.direct true), .fop (.derive 0 (.head 5)),
+         .fop (.append 1 Kind.dict good true), .fop (.append 0 Kind.dict [("a", some "str")] true)]).regs
+      = [[[some "int", none], [some "int", some "str"]],
+         [[some "int", none], [some "int", some "str"], [some "int", some "str"]]] := by decide
+
+/-- What the callers pass, as the source has it now: a frame never asks for a tuples-only class, the arrow reader
+does, and a tuples-only class is the one that would store a dict's keys. -/
+theorem row_class_callers :
+    Gen.RowClass.classNew Gen.RowClass.frameFlag = .rowNew ∧ Gen.RowClass.classNew Gen.RowClass.dictFrameFlag = .rowNew
+    ∧ (Gen.RowClass.arrowFlag = true → Gen.RowClass.classNew true = .tupleNew →
+        ∀ k r, RowClass.buildRow ⟨[], Gen.RowClass.classNew Gen.RowClass.arrowFlag⟩ k r = keysRow r) := by
+  refine ⟨by decide, by decide, ?_⟩
+  intro h1 h2 k r
+  simp [RowClass.buildRow, h1, h2]
+
+/-- A request for a row class is answered as if nothing had been asked before, whatever was: the class has the fields
+asked for and the constructor `tuples_only` selects. -/
+theorem create_class_history_independent (cache : RowClass.Cache) (h : RowClass.CacheOk RowClass.genCfg cache)
+    (fields : List String) (flag : Bool) :
+    (RowClass.createClass RowClass.genCfg cache fields flag).1 = ⟨fields, Gen.RowClass.classNew flag⟩
+    ∧ RowClass.CacheOk RowClass.genCfg (RowClass.createClass RowClass.genCfg cache fields flag).2 :=
+  RowClass.createClass_sound RowClass.genCfg row_classes_sound cache h fields flag
+
+/-- **Refinement**: for every program of a process — other features asking for row classes (the arrow reader, frames
+built from dictionaries or on other schemas, `Row.create_class` itself, with any field names and either flag), frames
+created on the columns `s` (from rows or from an arrow table), appends of any object, frames taken from frames — the
+frames of the process machine, which build their rows with the class they were given when they were created out of a
+cache shared by the whole process, show exactly what the register machine holds, in which no feature touches a frame. -/
+theorem process_refines_registers (s : List Column) (st : RowClass.PSt) (h : RowClass.Good RowClass.genCfg s st)
+    (ops : List RowClass.POp) :
+    (RowClass.runP RowClass.genCfg s st ops).regs = RowClass.runRP s st.regs ops :=
+  (RowClass.run_refinesP RowClass.genCfg row_classes_sound s ops st h).1
+
+/-- **Every frame of a process holds exactly its own history**: take any program of the process, stop anywhere; a frame
+that exists then and shows `rows` shows, after the rest of the program, `rows` followed by exactly the rows of the
+records accepted by the appends that went to it — the values in column order —, whatever other features were used
+before it was created or between its appends. -/
+theorem process_frame_holds_its_own (s : List Column) (st : RowClass.PSt) (h : RowClass.Good RowClass.genCfg s st)
+    (pre post : List RowClass.POp) (hwf : ∀ op ∈ RowClass.fopsOf post, op.wf = true) (j : Nat) (rows : List Family.Row)
+    (hj : (RowClass.runP RowClass.genCfg s st pre).regs[j]? = some rows) :
+    (RowClass.runP RowClass.genCfg s st (pre ++ post)).regs[j]? =
+      some (rows ++ (acceptedK s (Family.appendsTo j (RowClass.fopsOf post))).map (fun p => rowOf s p.2.1)) := by
+  rw [RowClass.runP_append]
+  obtain ⟨_, hg⟩ := RowClass.run_refinesP RowClass.genCfg row_classes_sound s pre st h
+  rw [(RowClass.run_refinesP RowClass.genCfg row_classes_sound s post _ hg).1, RowClass.runRP_frame s j post _ rows hj,
+    (appendsK_invariant s _ (RowClass.fopsOf_wf post hwf j) rows).1]
+
+/-- A process that starts with nothing: whatever features were used first (any field names, any of the three callers),
+the first frame made — from rows or from an arrow table — holds its initial rows plus exactly the records it accepted. -/
+theorem process_first_frame (s : List Column) (features : List (List String × RowClass.Who))
+    (arrow : Bool) (init : List Family.Row) (post : List RowClass.POp) (hwf : ∀ op ∈ RowClass.fopsOf post, op.wf = true) :
+    (RowClass.runP RowClass.genCfg s ⟨[], []⟩
+        ((features.map fun p => RowClass.POp.feature p.1 p.2) ++ [RowClass.POp.frame arrow init] ++ post)).regs[0]? =
+      some (init ++ (acceptedK s (Family.appendsTo 0 (RowClass.fopsOf post))).map (fun p => rowOf s p.2.1)) := by
+  have hg0 := RowClass.good_empty RowClass.genCfg s
+  apply process_frame_holds_its_own s _ hg0 ((features.map fun p => RowClass.POp.feature p.1 p.2) ++ [RowClass.POp.frame arrow init])
+    post hwf 0 init
+  rw [RowClass.runP_append]
+  obtain ⟨_, hg⟩ := RowClass.run_refinesP RowClass.genCfg row_classes_sound s (features.map fun p => RowClass.POp.feature p.1 p.2) _ hg0
+  have := (RowClass.step_refinesP RowClass.genCfg row_classes_sound s _ hg (RowClass.POp.frame arrow init)).1
+  simp only [RowClass.runP]
+  rw [this]
+  simp [RowClass.stepRP, RowClass.PSt.regs, RowClass.runP_features_frames]
+
+/-- **Frames created from dictionaries** (no schema object: nothing is validated): appending a mutable mapping of any
+class adds exactly one row — the values under the keys of the first dictionary, in that order, `None` where a key is
+absent, keys that are not columns dropped — or, when the row cannot be sized, raises and leaves the rows unchanged. -/
+theorem dictframe_append_spec (fields : List String) (rows : List (List Value)) (k : Kind) (hk : k.wf = true)
+    (hm : k.isMutableMapping = true) (r : Record) (z : Bool) :
+    RowClass.appendD fields rows k r z =
+      if z then (rows ++ [fields.map fun n => (lookup n r).getD none], .ok) else (rows, .unsizable) := by
+  obtain ⟨d, e, m, p⟩ := k
+  obtain ⟨h1, h2, _, _, h5⟩ := record_objects d e m p hk
+  have hr : rowReads (afterCoerce ⟨d, e, m, p⟩) = true := h1 (h5 ▸ h2 hm)
+  have hn : (Gen.RowClass.classNew Gen.RowClass.dictFrameFlag == Gen.RowClass.NewKind.rowNew) = true := by decide
+  have hg : Gen.ValidateFlow.appendValidateGuarded = true := by decide
+  cases z <;>
+    simp [RowClass.appendD, Gen.ValidateFlow.appendSteps, RowClass.runStepsD, RowClass.buildRow, hr, hn, hg]
+
+/-- After any sequence of appends of mutable mappings a dictionary-built frame holds its original rows followed by one row
+per record whose row could be sized, in order. -/
+theorem dictframe_appends_invariant (fields : List String) (l : List (Kind × Record × Bool))
+    (hl : ∀ p ∈ l, p.1.wf = true ∧ p.1.isMutableMapping = true) :
+    ∀ rows, RowClass.appendsD fields rows l =
+      rows ++ ((l.filter fun p => p.2.2).map fun p => fields.map fun n => (lookup n p.2.1).getD none) := by
+  induction l with
+  | nil => intro rows; simp [RowClass.appendsD]
+  | cons q l ih =>
+    obtain ⟨k, r, z⟩ := q
+    intro rows
+    obtain ⟨hk, hm⟩ := hl (k, r, z) List.mem_cons_self
+    have ih' := ih (fun p hp => hl p (List.mem_cons_of_mem _ hp))
+    simp only [RowClass.appendsD, dictframe_append_spec fields rows k hk hm r z]
+    cases z <;> simp [ih']
+
+/-- The statement is *false* of a cache keyed on the field names alone (the shape of seeded change C05-w5s1), and the
+machine shows it: when the arrow reader asks first, the frame is handed the reader's class — tuple's constructor, which
+makes of any record its keys; in the other order the reader is handed a class that reads records, which is harmless. -/
+theorem cache_keyed_on_names_alone_counterexample :
+    let bad : RowClass.Cfg := ⟨some (true, false), fun t => if t then .tupleNew else .rowNew, false, true⟩
+    bad.sound = false
+    ∧ (RowClass.createClass bad (RowClass.createClass bad [] ["a", "b"] bad.arrowFlag).2 ["a", "b"] bad.frameFlag).1
+        = ⟨["a", "b"], .tupleNew⟩
+    ∧ (RowClass.createClass bad (RowClass.createClass bad [] ["a", "b"] bad.frameFlag).2 ["a", "b"] bad.arrowFlag).1
+        = ⟨["a", "b"], .rowNew⟩
+    ∧ ∀ (f : List String) (k : Kind) (r : Record), RowClass.buildRow ⟨f, .tupleNew⟩ k r = keysRow r := by
+  refine ⟨by decide, by decide, by decide, ?_⟩
+  intro f k r
+  simp [RowClass.buildRow]
 
 end C05
